@@ -460,10 +460,116 @@ static void reuse_corpus()
     }
 }
 
+// change ONE option through its public setter on a live object (and record it for the fresh reference object): unlike
+// Opts::apply, which re-parses the full command line and therefore overwrites every option, this leaves all other option members
+// exactly as the earlier setup()/solve() calls left them
+static bool set_one(GMGPolar& g, Opts& o, const std::string& key, int v)
+{
+    o.set(key, v);
+    if (key == "divideBy2") g.divideBy2(v);
+    else if (key == "nr_exp") g.nr_exp(v);
+    else if (key == "maxLevels") g.maxLevels(v);
+    else if (key == "extrapolation") g.extrapolation((ExtrapolationType)v);
+    else if (key == "FMG") g.FMG(v != 0);
+    else if (key == "FMG_iterations") g.FMG_iterations(v);
+    else if (key == "FMG_cycle") g.FMG_cycle((MultigridCycleType)v);
+    else if (key == "multigridCycle") g.multigridCycle((MultigridCycleType)v);
+    else if (key == "preSmoothingSteps") g.preSmoothingSteps(v);
+    else if (key == "postSmoothingSteps") g.postSmoothingSteps(v);
+    else if (key == "maxIterations") g.maxIterations(v);
+    else if (key == "residualNormType") g.residualNormType((ResidualNormType)v);
+    else if (key == "DirBC_Interior") g.DirBC_Interior(v != 0);
+    else if (key == "stencilDistributionMethod") g.stencilDistributionMethod((StencilDistributionMethod)v);
+    else return false;
+    return true;
+}
+static void reuse_compare(const char* tag, int c, int step, const std::string& hist, GMGPolar& reused, const Opts& o)
+{
+    GMGPolar fresh;
+    o.apply(fresh);
+    fresh.setup();
+    fresh.solve();
+    std::string a = result_sig(reused), b = result_sig(fresh);
+    Opts oc = o;
+    printf("REU case=%s%d step=%d hist=%s extrap=%s fmg=%s same=%d reused=[%s] fresh=[%s] opts=[%s]\n", tag, c, step, hist.c_str(), oc.kv["extrapolation"].c_str(), oc.kv["FMG"].c_str(),
+           (int)(a == b), a.c_str(), b.c_str(), o.str().c_str());
+}
+// the refinement loop of the shipped convergence_order program: options set ONCE, then divideBy2 = 0, 1, 2 with setup() + solve() each
+// (also run downwards and with a repeated size), for level caps that the first, smallest grid cannot reach
+static void reuse_refinement_loops()
+{
+    int c = 0;
+    for (int extrap : {0, 1, 3})
+        for (int fmg : {0, 1})
+            for (int cap : {-1, 6}) {
+                if (c >= 8 && (extrap == 3) == (fmg == 1)) { c++; continue; } // keep the corpus small: 10 loops
+                Rng rng(777 + c);
+                Opts o = base_opts(rng, 3);
+                o.set("problem", 0); o.set("alpha_coeff", 1); o.set("beta_coeff", c % 2); o.set("geometry", c % 3);
+                if (c % 3 == 2) { o.set("kappa_eps", 0.3); o.set("delta_e", 1.4); } else { o.set("kappa_eps", 0.3); o.set("delta_e", 0.2); }
+                o.set("extrapolation", extrap); o.set("FMG", fmg); o.set("FMG_iterations", 1); o.set("FMG_cycle", 0);
+                o.set("multigridCycle", 0); o.set("preSmoothingSteps", 1); o.set("postSmoothingSteps", 1); o.set("maxLevels", cap);
+                o.set("residualNormType", 0); o.set("maxIterations", 40); o.set("absoluteTolerance", 1e-10); o.set("relativeTolerance", 1e-9);
+                o.set("maxOpenMPThreads", 1); o.set("divideBy2", 0);
+                GMGPolar reused;
+                o.apply(reused);
+                std::string hist;
+                int step = 0;
+                for (int k : {0, 1, 2, 1}) {
+                    set_one(reused, o, "divideBy2", k);
+                    reused.setup();
+                    reused.solve();
+                    hist += "divideBy2=" + std::to_string(k) + ",setup,solve,";
+                    reuse_compare("loop", c, step++, hist, reused, o);
+                }
+                c++;
+            }
+}
+// histories in which single options are changed through their setters between the calls
+static void reuse_delta_histories(Rng& rng, int cases)
+{
+    struct K { const char* key; std::vector<int> vals; bool needs_setup; };
+    const std::vector<K> keys = {
+        {"divideBy2", {0, 1}, true}, {"nr_exp", {3, 4}, true}, {"maxLevels", {-1, 2, 3, 6}, true}, {"extrapolation", {0, 1, 2, 3}, true}, {"FMG", {0, 1}, true},
+        {"DirBC_Interior", {0, 1}, true}, {"stencilDistributionMethod", {0, 1}, true},
+        {"FMG_iterations", {0, 1, 2}, false}, {"FMG_cycle", {0, 1, 2}, false}, {"multigridCycle", {0, 1, 2}, false}, {"preSmoothingSteps", {1, 2}, false},
+        {"postSmoothingSteps", {1, 2}, false}, {"maxIterations", {150, 4, 9}, false}, {"residualNormType", {0, 1, 2}, false}};
+    for (int c = 0; c < cases; c++) {
+        Opts o = random_solve_opts(rng, 3);
+        o.set("divideBy2", 0);
+        if (o.kv["absoluteTolerance"] == "-1" && o.kv["relativeTolerance"] == "-1") o.set("relativeTolerance", 1e-8);
+        o.set("maxOpenMPThreads", 1);
+        GMGPolar reused;
+        o.apply(reused);
+        reused.setup();
+        reused.solve();
+        std::string hist = "setup,solve,";
+        reuse_compare("delta", c, 0, hist, reused, o);
+        int len = rng.range(2, 4);
+        for (int step = 1; step <= len; step++) {
+            bool need = false;
+            int nchg = rng.range(1, 2);
+            for (int q = 0; q < nchg; q++) {
+                const K& k = rng.pick(keys);
+                int v = rng.pick(k.vals);
+                set_one(reused, o, k.key, v);
+                need = need || k.needs_setup;
+                hist += std::string(k.key) + "=" + std::to_string(v) + ",";
+            }
+            if (need || rng.coin(0.4)) { reused.setup(); hist += "setup,"; }
+            reused.solve();
+            hist += "solve,";
+            reuse_compare("delta", c, step, hist, reused, o);
+        }
+    }
+}
+
 static int mode_reuse(int cases)
 {
     Rng rng(seed_from_env());
     reuse_corpus();
+    reuse_refinement_loops();
+    reuse_delta_histories(rng, std::max(4, cases / 2));
     for (int c = 0; c < cases; c++) {
         int len = rng.range(2, 4);
         GMGPolar reused;
